@@ -16,5 +16,8 @@ def run(tier):
         ("MCProject", "MCProject_t1.cfg", "project"), ("MCProject", "MCProject_t2.cfg", "project")]
     # inadmissible targets are also rejected when projecting during creation (Create.tla, build step)
     stages.append(("MCCreate", "MCCreate_badproj.cfg", "create"))
+    # two axes at sizes where the joint denominator C(n1,m1) C(n2,m2) leaves the f64 range (through create: Spectrum::project
+    # visits every source cell against every target cell and is not usable at these sizes)
+    stages.append(("MCCreateLarge", "MCCreateLarge_joint.cfg", "createlarge", {"workers": 2}))
     return standard("C03", tier, "model_checking", RULE, ASSUME, stages,
                     sabotage=[("MCProject", "MCProject_abWrongStep.cfg", ["ClosedForm", "TwoStepEqualsDirect"])])
